@@ -232,8 +232,49 @@ pub fn near_miss_relations(ctx: &mut Ctx, base: &[u8]) {
     }
 }
 
+/// The public primitive: `Fingerprint::compute` is CRC-32/ISO-HDLC of the data it is given (the
+/// XOR with 0x5354554e is applied when the attribute is written / compared).
+pub fn check_crc_primitive(ctx: &mut Ctx, data: &[u8]) {
+    ctx.eval();
+    let want = crate::refimpl::crypto::crc32(data).to_be_bytes();
+    let r = guard(|| {
+        let c = stun_types::attribute::Fingerprint::compute(data);
+        // the attribute made from it carries the XORed value on the wire and gives the CRC back
+        let f = stun_types::attribute::Fingerprint::new(c);
+        let raw = stun_types::attribute::AttributeWrite::to_raw(&f);
+        (c, raw.value.to_vec(), *f.fingerprint())
+    });
+    let w = || json!({"kind": "crc-primitive", "data": hex(data)});
+    match r {
+        Err(p) => ctx.violation("C09", "no-panic", "Fingerprint::compute", "primitive", w, "value".into(), format!("panic: {} at {}", p.msg, p.loc)),
+        Ok((c, wire, back)) => {
+            let xored: Vec<u8> = want.iter().zip([0x53u8, 0x54, 0x55, 0x4e]).map(|(a, b)| a ^ b).collect();
+            if c != want || wire != xored || back != want {
+                ctx.violation("C09", "crc-is-iso-hdlc", "Fingerprint::{compute,new,to_raw}", "primitive", w, format!("crc {} wire {}", hex(&want), hex(&xored)), format!("crc {} wire {} getter {}", hex(&c), hex(&wire), hex(&back)));
+            }
+            ctx.count("crc-primitive-checks");
+        }
+    }
+}
+
 pub fn run(ctx: &mut Ctx) {
     let quick = ctx.tier == Tier::Quick;
+    {
+        let np = ctx.n(16_000, 400_000);
+        let mut rng = ctx.rng("crc-primitive", 0);
+        for i in 0..np {
+            let dl = match i % 6 {
+                0 => rng.usize(9),
+                1 => *rng.pick(&[15usize, 16, 17, 31, 32, 33, 63, 64, 65, 255, 256, 257, 1023, 1024, 1025, 4095, 4096, 4097]),
+                2 => rng.usize(70_000),
+                _ => rng.usize(300),
+            };
+            let fill = rng.below(4);
+            let data: Vec<u8> = (0..dl).map(|_| match fill { 0 => 0, 1 => 0xff, _ => rng.byte() }).collect();
+            check_crc_primitive(ctx, &data);
+        }
+        ctx.require("crc-primitive-checks", 5_000);
+    }
     // ---- builder-appended FINGERPRINT equals the reference value ----
     let nb = ctx.n(160_000, 2_000_000);
     let mut rng = ctx.rng("builder-fp", 0);
@@ -510,6 +551,11 @@ pub fn run(ctx: &mut Ctx) {
 
 pub fn replay(ctx: &mut Ctx, w: &Value) -> Result<(), String> {
     match w.get("kind").and_then(|k| k.as_str()) {
+        Some("crc-primitive") => {
+            let d = crate::refimpl::crypto::unhex(w["data"].as_str().ok_or("data")?).ok_or("hex")?;
+            check_crc_primitive(ctx, &d);
+            Ok(())
+        }
         Some("fp-mutant") => {
             let m = crate::refimpl::crypto::unhex(w["buf"].as_str().ok_or("buf")?).ok_or("hex")?;
             check_mutant(ctx, &m);
